@@ -149,3 +149,16 @@ Proof.
   - rewrite S0 in H1. exact (Qlt_not_le _ _ H2 H1).
   - unfold peq; cbn. rewrite S0, S1, S2, S3. repeat split; reflexivity.
 Qed.
+
+(* particles without constituents change nothing for the others *)
+Lemma graphless_transparent ps :
+  existsb particle_key_error ps = false -> results_of (particles_positions ps) = molecule_positions (beads_of ps).
+Proof.
+  intros H. unfold particles_positions, molecule_positions. rewrite H.
+  assert (E : existsb bead_key_error (beads_of ps) = false).
+  { induction ps as [|p ps IH]; [reflexivity|]. cbn [existsb] in H. apply orb_false_elim in H as [H1 H2].
+    destruct p as [b|]; cbn [beads_of flat_map app existsb]; [|exact (IH H2)].
+    change (flat_map _ ps) with (beads_of ps). cbn [particle_key_error] in H1. rewrite H1. exact (IH H2). }
+  rewrite E. clear H E. induction ps as [|p ps IH]; [reflexivity|].
+  destruct p as [b|]; cbn [map results_of beads_of flat_map app]; [f_equal|]; exact IH.
+Qed.
